@@ -49,6 +49,14 @@ CHECKS = {
    technique="TLA+ TabList.tla: shell-lexer automaton over character classes, TLC checks that every escaped row lexes to one literal word; rows concretised and executed by real dash and bash on GenFuncList's output (specification as oracle)",
    text="TabList.tla models Escape (every ' becomes '\\'') and the POSIX lexer restricted to unquoted / single-quoted / escaped modes; TLC checks OneLiteralWord, EndsUnquoted, NothingExposed, OnlyQuoteEscapes for every row over 19 classes up to length 3 (quick) / 4 (thorough). Each row is concretised with seeded spellings including command substitutions that would create a canary file, placed after the tag in payloads with duplicates and empty tags; GenFuncList's text is checked for unescaped quotes and sourced by dash and bash with echo stubbed: one word per row, rows as intended, nothing created; payloads free of TAB/VT/FF/0xFF must list exactly the expected (name, description) pairs, sorted and distinct.",
    note="Rows are a class abstraction with seeded spellings, not every byte string; dash and bash stand for 'a POSIX shell'."),
+ "C13": dict(level="model_checking", design="DESIGN.md §6 C13, §4.6",
+   technique="TLA+ Pin.tla model-checked with TLC over every interleaving of concurrent calls (OwnConfigOnly, GlobalsUntouched); every (fingerprint, server) assignment replayed on the real simpleshell.Go against real TLS servers, sequentially and concurrently",
+   text="Pin.tla gives each call a Configure and a Connect step so that concurrent calls interleave, and states that a call's fate is Decision(own fingerprint, chain presented) and that the process-wide HTTP defaults stay pristine; TLC checks all interleavings for 2 (quick) / 3 (thorough) calls over 9 fingerprint kinds x 3 server kinds. Every assignment is executed on the real code against freshly keyed TLS servers (self-signed, untrusted chain with the match at position 0 or 1, chain under the process's only trusted root), as a sequence and then at the same time; observed: did the request reach the handler, was a TCP connection made at all, the error, and http.DefaultClient / http.DefaultTransport after every call.",
+   note="Trusted: crypto/tls, x509, SHA-256; the trust store is replaced through SSL_CERT_FILE before first use. 'Other' fingerprints are seeded near misses."),
+ "C14": dict(level="model_checking", design="DESIGN.md §6 C14, §4.6",
+   technique="TLA+ Relay.tla model-checked with TLC (AllRelayedBeforeEOF, ExitReported, liveness Ends) over every interleaving of child, copiers, runner, closer and consumer; its shapes replayed on the real CmdShell with a real child process at several volumes and consumer paces",
+   text="Relay.tla models the child's two bounded kernel pipes, the two copiers into one rendezvous pipe, the runner (start / wait), the closer and a consumer reading at its own pace; TLC checks that at end-of-file everything written has been received in per-stream order and that the exit status is reported. Each shape x exit status is run on the real CmdShell with a helper child whose every output byte encodes its stream and offset, with chunk sizes from 12 B to 70 KB, fast / slow / late consumers, exit delays and stdin use, several times each.",
+   note="The OS scheduler inside os/exec cannot be gated: configurations are run repeatedly and any lossy run counts. Trusted: the helper child built from /verif."),
 }
 
 PENDING = {}
